@@ -24,11 +24,22 @@ pub fn chain_type_from_idx(i: u8) -> ChainTypes {
 pub fn init_globals() {
 	let i: u8 = kani::any();
 	kani::assume(i < 4);
+	let nrd: bool = kani::any();
 	unsafe {
 		CHAIN_TYPE_IDX = i;
-		NRD_ENABLED = kani::any();
+		NRD_ENABLED = nrd;
 	}
+	playback_set_globals(i, nrd);
 }
+/// Under Kani this function is stubbed by `playback_noop` (the engine adds the attribute to every
+/// harness that stubs get_chain_type).  In a concrete-playback run stubs are not applied, the
+/// real accessors run, and this sets the real thread-local globals to the counterexample's
+/// values so that the native replay takes the same path.
+pub fn playback_set_globals(i: u8, nrd: bool) {
+	crate::global::set_local_chain_type(chain_type_from_idx(i));
+	crate::global::set_local_nrd_enabled(nrd);
+}
+pub fn playback_noop(_i: u8, _nrd: bool) {}
 pub fn set_chain_type_idx(i: u8) {
 	unsafe {
 		CHAIN_TYPE_IDX = i;
@@ -159,7 +170,7 @@ impl<const N: usize> Reader for KReader<N> {
 		if b == val {
 			Ok(b)
 		} else {
-			Err(Error::UnexpectedData { expected: vec![], received: vec![] })
+			Err(Error::UnexpectedData { expected: vec![val], received: vec![b] })
 		}
 	}
 	fn protocol_version(&self) -> ProtocolVersion {
@@ -196,12 +207,11 @@ impl<const N: usize> Writer for KWriter<N> {
 			self.overflow = true;
 			return Err(Error::TooLargeReadErr);
 		}
-		let mut i = 0;
-		while i < b.len() {
-			self.buf[self.pos + i] = b[i];
-			i += 1;
-		}
+		self.buf[self.pos..self.pos + b.len()].copy_from_slice(b);
 		self.pos += b.len();
 		Ok(())
 	}
 }
+
+/// hashing input is irrelevant to contracts that do not speak about digests: do not feed bytes to blake2b
+pub fn stub_blake_update(_s: &mut blake2::blake2b::Blake2b, _data: &[u8]) {}
